@@ -393,8 +393,33 @@ let dur_check line =
       | None -> verdict false ("outcome:" ^ impl))
   | _ -> verdict false ("outcome:" ^ impl)
 
+(* C03, IntoThreads: "t=<n>" scalar, "a=<list>" array, "r=<lo>..<hi>" range *)
+let thr_input line =
+  let v = String.sub line 2 (String.length line - 2) in
+  match line.[0] with
+  | 't' -> (true, [n_of_string v])
+  | 'a' -> (false, list_n v)
+  | 'r' -> (match String.index_opt v '.' with
+      | Some i -> let lo = int_of_string (String.sub v 0 i) and hi = int_of_string (String.sub v (i + 2) (String.length v - i - 2)) in
+        (false, List.init (max 0 (hi - lo)) (fun k -> n_of_small (lo + k)))
+      | None -> failwith "range")
+  | _ -> failwith "thr"
+
+let thr_model line =
+  let (scalar, input) = thr_input line in
+  list_s string_of_n (if scalar then input else thr_norm input)
+
+let thr_check line =
+  let (case, impl) = split_sb line in
+  let (scalar, input) = thr_input case in
+  match (try Some (list_n impl) with _ -> None) with
+  | Some out -> verdict (c03_threads_sb scalar input out) "C03:threads-value-not-converted-to-itself"
+  | None -> verdict false ("outcome:" ^ impl)
+
 let dispatch mode line =
   match mode with
+  | "c03thr" -> thr_model line
+  | "c03thr.sb" -> thr_check line
   | "c04dur" -> dur_model line
   | "c04dur.sb" -> dur_check line
   | "c04cal" -> c04cal_model line
